@@ -212,6 +212,23 @@ impl Pager {
             .truncate(false)
             .open(&path)?;
 
+        // One writer handle per database: the in-memory writer mutex only serializes
+        // transactions of one handle, so a second handle (same or other process) would
+        // write the same files unsynchronized. The lock is released when the file closes.
+        match file.try_lock() {
+            Ok(()) => {}
+            Err(std::fs::TryLockError::WouldBlock) => {
+                return Err(Error::Io(io::Error::new(
+                    io::ErrorKind::WouldBlock,
+                    format!(
+                        "database file is already open for writing: {}",
+                        path.display()
+                    ),
+                )));
+            }
+            Err(std::fs::TryLockError::Error(e)) => return Err(Error::Io(e)),
+        }
+
         // A crash during the very first open can leave a sized file whose meta page was
         // never written: that is still an empty database, not a corrupt one.
         let never_initialized = |file: &File| -> Result<bool> {
